@@ -12,15 +12,16 @@ MANIFEST = dict(
          'multi-assets returned by the packer are a split of the change bundle (per asset the quantities add up, nothing lost '
          'or duplicated); every output returned by the model of _calc_change has ADA >= 0 and strictly positive quantities, the '
          'change outputs add up to provided - requested, each holds at least coins_per_utxo_byte*(160+|its own serialization|) '
-         'when the minimum is respected; each packed value fits max_val_size when its coin is below 2^32 (<= max+4 below 2^64: '
-         'the known excess of the last change output, refuted lemma with witness); the model refuses with '
+         'when the minimum is respected; every change value fits max_val_size (the packer sizes each part with max(minimum '
+         'ADA, ADA of the change) and no output receives more); the model refuses with '
          'InsufficientUTxOBalance exactly when the ADA left cannot fund the minimum of every change output; serialization of an '
          'output / UTxO / body / transaction refuses any negative ADA or quantity; the min-ADA utility is the ledger formula. '
          'Serialized sizes are computed inside the model by the CBOR encoder of Cbor.v/Value.v. Model tied to the code by exact '
          'correspondence on the private methods (_pack_tokens_for_change, _adding_asset_make_output_overflow, _calc_change, '
          '_add_change_and_fee, min_lovelace_post_alonzo, to_cbor validation) and by an end-to-end oracle on build().',
     note='Trusted: Coq kernel+vm_compute; hand model Change.v validated by differential runs; fee numbers passed as data; '
-         'generator; driver (argument snapshots). No axioms. Known finding: last-change-plus-4-bytes.',
+         'generator; driver (argument snapshots). No axioms. Findings reported and fixed while building the check: '
+         'merge-change-underfunded (f703c57), last-change-plus-4-bytes and small-cpb-coin-width (c8b4af1).',
     technique='Coq proof (loop invariants, content abstraction, canonical-encoding lemma, size arithmetic) + slice '
               'correspondence + end-to-end oracle on decoded output bytes', ref='C08')
 TRUSTED = [
@@ -34,15 +35,17 @@ TRUSTED = [
 ]
 ASSUMPTIONS = [
     'dict keys are unique (Python dict); an address is identified with its raw bytes',
-    'the change bundle handed to the packer has well-formed dicts (wfm); C08_size_partial: every single asset fits '
-    'max_val_size (proved for 28-byte policies, names <= 32 bytes, quantities and minimum ADA < 2^64, max_val_size >= 85) and '
-    '160*coins_per_utxo_byte >= 65536 (every minimum ADA needs a 5-byte coin; holds for coins_per_utxo_byte >= 410)',
+    'the change bundle handed to the packer has well-formed dicts (wfm); C08_size: every single asset fits max_val_size '
+    '(proved for 28-byte policies, names <= 32 bytes, quantities, minimum ADA and change < 2^64, max_val_size >= 85; a '
+    'refuted lemma shows the premise is needed for max_val_size = 60, outside the range) and the change holds < 2^64 lovelace',
+    'C08_outputs, minimum ADA of own size: coin < 2^32 or minimum <= 2^32 (the code computes the minimum with a 5-byte coin)',
     'typeguard / constructor validation outside the model (well-typed operands only)',
 ]
-# regions reported to the coordinator and not yet answered: kept out of oracle_fail, counted in known_region_hits
-# (last-change-plus-4-bytes is registered in known_findings.json and therefore goes through oracle_fail)
-KNOWN_REGIONS = ['small-cpb-coin-width']
-SMALL_CPBS = [1, 50, 300]  # below 410 the minimum ADA needs fewer than 5 bytes: outside the premise of C08_size_partial
+# regions reported to the coordinator and not yet answered: kept out of oracle_fail, counted in known_region_hits.
+# None pending: merge-change-underfunded, last-change-plus-4-bytes and small-cpb-coin-width are fixed in /repo; their
+# witnesses are corpus cases that must satisfy the oracle / be refused.
+KNOWN_REGIONS = []
+SMALL_CPBS = [1, 50, 300]  # minimum ADA below 65536 lovelace (fewer than 5 coin bytes)
 
 ADDR_B = '00' + '11' * 28 + '22' * 28        # base address, testnet: 57 bytes
 ADDR_E = '60' + '33' * 28                    # enterprise address, testnet: 29 bytes
@@ -142,7 +145,7 @@ def gen_ovf(rng):
     mvs = max(100, min(5000, ma_size(total) + 6 + rng.choice([-40, -8, -3, -2, -1, 0, 0, 1, 2, 3, 8, 40])))
     return dict(kind='ovf', cpb=rng.choice(CPBS), mvs=mvs, addr=rng.choice(ADDRS),
                 out=[rng.choice([0, 0, 1, 1000000, 2 ** 32, rng.randint(0, 10 ** 7)]), out_ma], cur=cur, pid=pid, name=name,
-                q=rng.choice(QTYS))
+                q=rng.choice(QTYS), max_coin=rng.choice([0, 0, 1, 65535, 65536, 1000000, 2 ** 32 - 1, 2 ** 32, 5 * 10 ** 12]))
 
 
 def spread(rng, coin, ma, k):
@@ -327,7 +330,7 @@ def finish_pool(rng, c, in_coin):
 
 
 # the two reported witnesses of region merge-change-underfunded (fixed by f703c57): must be refused now;
-# and the witness of the known finding last-change-plus-4-bytes (always generated)
+# and the witnesses of last-change-plus-4-bytes / small-cpb-coin-width (fixed by c8b4af1): must fit now
 def corpus_cases():
     ma16 = [[('%02x' % (p + 1)) * 28, [[('%02x%02x' % (p, i)) + '78' * 30, 1] for i in range(8)]] for p in range(2)]
     ma3 = [['01' * 28, [[('00%02x' % i) + '78' * 30, 1] for i in range(3)]]]
@@ -384,7 +387,7 @@ def render_case(c, r):
     if k == 'pack':
         return f'KPack {r_cfg(c)} {a} {r_val(c["change"])} {r_res(r, lambda l: clist([r_ma(m) for m in l]))}'
     if k == 'ovf':
-        return (f'KOvf {r_cfg(c)} {a} {r_val(c["out"])} {r_asset(c["cur"])} {chx(bytes.fromhex(c["pid"]))} '
+        return (f'KOvf {r_cfg(c)} {a} {cz(c["max_coin"])} {r_val(c["out"])} {r_asset(c["cur"])} {chx(bytes.fromhex(c["pid"]))} '
                 f'{chx(bytes.fromhex(c["name"]))} {cz(c["q"])} {cbool(r["ok"])}')
     if k == 'calc':
         return f'KCalc {r_cfg(c)} {r_cc(c)} {r_res(r, lambda l: clist([r_val(o[1]) for o in l]))}'
@@ -567,10 +570,6 @@ def nontrivial(c, r):
 
 
 def region_of(c, r, cl):
-    if cl == 'last-change-plus-4-bytes':
-        return cl
-    if cl == 'value-exceeds-max-val-size' and c['cpb'] < 410 and c['kind'] in ('calc', 'add', 'build'):
-        return 'small-cpb-coin-width'
     return f'{c["kind"]}:{cl}'
 
 
@@ -588,10 +587,9 @@ def correspond(ctx, scale=None):
             notes[c['corpus']] = results[i].get('err', 'RETURNED')
             if 'ok' in results[i] and i not in fail:
                 pass                                   # returned AND valid: fine as well (oracle decided)
-        if c.get('corpus', '').startswith('plus4'):
-            notes[c['corpus']] = 'seen' if i in plus4 else 'not-seen'
-        if c.get('corpus', '').startswith('small-cpb'):
-            notes[c['corpus']] = 'seen' if cls.get(i) == 'value-exceeds-max-val-size' else 'not-seen'
+        if c.get('corpus', '').startswith(('plus4', 'small-cpb')):
+            notes[c['corpus']] = ('oracle-fails:' + cls.get(i, '?')) if (i in fail or i in plus4) else \
+                ('fits-now' if 'ok' in results[i] else results[i].get('err'))
     hist, errk, nchg = {}, {}, {}
     for c, r in zip(cases, results):
         hist[c['kind']] = hist.get(c['kind'], 0) + 1
@@ -610,9 +608,7 @@ def correspond(ctx, scale=None):
             known_hits[f['region']] = known_hits.get(f['region'], 0) + 1
         else:
             ofail.append(f)
-    for i in sorted(plus4):
-        known_hits['last-change-plus-4-bytes'] = known_hits.get('last-change-plus-4-bytes', 0) + 1
-    ofail += [pack(i, 'last-change-plus-4-bytes') for i in sorted(plus4)[:3]]
+    ofail += [pack(i, 'value-exceeds-max-val-size') for i in sorted(plus4)]       # (class no longer produced by the oracle)
     return dict(
         evaluations=len(cases), distinct_nontrivial=distinct,
         rule='slice cases: real _pack_tokens_for_change / _adding_asset_make_output_overflow / _calc_change / '
@@ -638,8 +634,7 @@ def correspond(ctx, scale=None):
 def search(ctx, mism):
     ctx.rng.seed(f'search-{ctx.seed}')
     r = correspond(ctx, 3.0 if ctx.quick else 20.0)
-    bad = [f for f in r['oracle_fail'] if f['region'] != 'last-change-plus-4-bytes']
-    return bad[0] if bad else None
+    return r['oracle_fail'][0] if r['oracle_fail'] else None
 
 
 def replay(ctx, rep):
